@@ -124,10 +124,10 @@ From Verif Require Import Proofs.AllocMonoP Proofs.CtrlStarveP Proofs.CtrlPostP.
 
 (* every postcondition convergeBalancer establishes for the status/annotation it
    produces holds for every Service whenever the reconciler has no pending work *)
-Theorem C02_handler_postconditions_hold_at_quiescence : forall rank (post : svcobj -> Prop),
-  (forall a s o k v ok, minv a -> converge rank a s o k = CR v ok -> post (with_status o (cv_status v) (cv_annot v))) ->
+Theorem C02_handler_postconditions_hold_at_quiescence : forall rank (post : pools -> svcobj -> Prop),
+  (forall a s o k v ok, minv a -> converge rank a s o k = CR v ok -> post (s_pools a) (with_status o (cv_status v) (cv_annot v))) ->
   forall evs w, wrun rank evs world0 = Some w -> quiescent w ->
-  forall s o, aget (w_api w) s = Some o -> post o.
+  forall s o, aget (w_api w) s = Some o -> post (s_pools (c_mem (w_ctl w))) o.
 Proof. exact quiescent_post. Qed.
 
 (* a Service that requests specific addresses has exactly those, or none - never
@@ -144,3 +144,13 @@ Theorem C02_status_families_at_quiescence : forall rank evs w s o,
   wrun rank evs world0 = Some w -> quiescent w -> aget (w_api w) s = Some o -> o_status o <> [] ->
   o_lb o = true /\ family_changed (alloc_fam (o_status o)) (r_fam (o_req o)) (r_pol (o_req o)) = false.
 Proof. exact quiescent_family_ok. Qed.
+
+(* the pool annotation names a configured pool that owns every address of the
+   status and whose namespace / service selectors admit the Service as it is now
+   (an unparsable address request excepted: finding F19) *)
+Theorem C02_status_pool_admits_service_at_quiescence : forall rank evs w s o,
+  wrun rank evs world0 = Some w -> quiescent w -> aget (w_api w) s = Some o ->
+  o_want o <> WInvalid -> o_status o <> [] ->
+  exists p, In p (by_name (s_pools (c_mem (w_ctl w)))) /\ o_annot o = Some (p_name p) /\
+            (forall x, In x (o_status o) -> in_pool p x = true) /\ compatible p (o_req o) = true.
+Proof. exact quiescent_pool_admits. Qed.
